@@ -128,6 +128,10 @@ def setBA : List BA → Nat → BA → List BA
 allocation.go 812): wraps modulo 2^64 -/
 def wrapSub (a b : Nat) : Nat := if b ≤ a then a - b else a + 2 ^ 64 - b
 
+/-- unchecked `uint64` addition (`+=` on a `currency.Coin`): wraps modulo 2^64 — reachable only for a value that an
+earlier unchecked decrement left just below 2^64 -/
+def wrapAdd (a b : Nat) : Nat := if a + b < 2 ^ 64 then a + b else a + b - 2 ^ 64
+
 /-- what a passed challenge debits from the challenge pool: the whole reduction `D` of the blobber's value, except that
 `moveToValidators` returns early on an empty validator list (challengepool.go 101) — then the validators' share `V`
 stays in the pool although the blobber's value was reduced by it -/
@@ -540,7 +544,8 @@ def extendAll (grow : Bool) (diff newSize : Nat) : State → List BA → Except 
 
 /-- `adjustChallengePool`: per blobber allocation the observed signed change `x`: `x > 0` moves write pool → challenge
 pool (`moveToChallengePool`: `x ≤ WritePool`), `x < 0` moves back (`moveFromChallengePool`: `|x| ≤ cp`; the per-blobber
-value is decremented UNCHECKED in the code and wraps modulo 2^64 when `|x|` exceeds it: `wrapSub`). Folded over the list, carrying
+value is decremented UNCHECKED in the code and wraps modulo 2^64 when `|x|` exceeds it: `wrapSub`; the increment is
+an unchecked `+=` as well: `wrapAdd`, which brings a wrapped value back below 2^64). Folded over the list, carrying
 `(wp, cp, mtc, mb)`. -/
 def adjust : List BA → List Int → Nat → Nat → Nat → Nat → Option (List BA × Nat × Nat × Nat × Nat)
   | [], [], wp, cp, mtc, mb => some ([], wp, cp, mtc, mb)
@@ -550,7 +555,7 @@ def adjust : List BA → List Int → Nat → Nat → Nat → Nat → Option (Li
       if wp < v then none else
       match adjust ds xs (wp - v) (cp + v) (mtc + v) mb with
       | none => none
-      | some (ds', wp', cp', mtc', mb') => some ({ d with cv := d.cv + v } :: ds', wp', cp', mtc', mb')
+      | some (ds', wp', cp', mtc', mb') => some ({ d with cv := wrapAdd d.cv v } :: ds', wp', cp', mtc', mb')
     else
       let v := (-x).toNat
       if cp < v then none else
